@@ -26,6 +26,7 @@ type jsRequest struct {
 	rejoin     bool
 	known      bool
 	lookupFail int // 1: GetKEKByLabel(SenderID), 2: GetASKEKLabelByDevEUI, 3: GetKEKByLabel(AS label) return an error
+	storeFail  bool // GetDeviceKeysByDevEUI returns an error other than ErrDevEUINotFound
 	nwkKey     lw.AES128Key
 	appKey     lw.AES128Key
 	nonce      int
@@ -50,18 +51,20 @@ func parseJSRequest(r *tokReader) (*jsRequest, error) {
 		return nil, err
 	}
 	q.rejoin = k == "R"
-	// 0 = unknown device, 1 = known, 2..4 = known, but the KEK / label lookup number (known - 1) fails
+	// 0 = unknown device, 1 = known, 2..4 = known, but the KEK / label lookup number (known - 1) fails,
+	// 5 = the device-key store itself fails (an error other than "not found")
 	kv, err := r.u64()
 	if err != nil {
 		return nil, err
 	}
-	if kv > 4 {
+	if kv > 5 {
 		return nil, fmt.Errorf("known flag")
 	}
 	q.known = kv >= 1
-	if kv >= 2 {
+	if kv >= 2 && kv <= 4 {
 		q.lookupFail = int(kv - 1)
 	}
+	q.storeFail = kv == 5
 	if q.nwkKey, err = r.key(); err != nil {
 		return nil, err
 	}
@@ -136,7 +139,7 @@ const jsASLabel = "as-kek-label"
 
 // one handler serving a set of requests: devices keyed by DevEUI, KEKs by label
 func newJSHandler(reqs []*jsRequest) (*jsHandlerEnv, error) {
-	env := &jsHandlerEnv{devices: map[lw.EUI64]joinserver.DeviceKeys{}, keks: map[string][]byte{}, asLabels: map[lw.EUI64]string{}, failKEK: map[string]bool{}, failLabel: map[lw.EUI64]bool{}}
+	env := &jsHandlerEnv{devices: map[lw.EUI64]joinserver.DeviceKeys{}, keks: map[string][]byte{}, asLabels: map[lw.EUI64]string{}, failKEK: map[string]bool{}, failLabel: map[lw.EUI64]bool{}, failDev: map[lw.EUI64]bool{}}
 	for _, q := range reqs {
 		if q.known {
 			env.devices[q.devEUI] = joinserver.DeviceKeys{DevEUI: q.devEUI, NwkKey: q.nwkKey, AppKey: q.appKey, JoinNonce: q.nonce}
@@ -151,6 +154,9 @@ func newJSHandler(reqs []*jsRequest) (*jsHandlerEnv, error) {
 				env.keks[l] = q.asKEK
 			}
 		}
+		if q.storeFail {
+			env.failDev[q.devEUI] = true
+		}
 		switch q.lookupFail {
 		case 1:
 			env.failKEK[q.sender] = true
@@ -163,6 +169,9 @@ func newJSHandler(reqs []*jsRequest) (*jsHandlerEnv, error) {
 	}
 	h, err := joinserver.NewHandler(joinserver.HandlerConfig{
 		GetDeviceKeysByDevEUIFunc: func(e lw.EUI64) (joinserver.DeviceKeys, error) {
+			if env.failDev[e] {
+				return joinserver.DeviceKeys{}, fmt.Errorf("device store unavailable")
+			}
 			if d, ok := env.devices[e]; ok {
 				return d, nil
 			}
@@ -193,6 +202,7 @@ func newJSHandler(reqs []*jsRequest) (*jsHandlerEnv, error) {
 }
 
 type jsHandlerEnv struct {
+	failDev   map[lw.EUI64]bool
 	failKEK   map[string]bool
 	failLabel map[lw.EUI64]bool
 	devices   map[lw.EUI64]joinserver.DeviceKeys
